@@ -153,7 +153,7 @@ def enumerate_mutants(per_function):
     return out
 
 
-def one(m, scale, amap):
+def one(m, scale, amap, override=None):
     tag = re.sub(r"\W+", "_", m["id"])[-80:]
     root = "/dev/shm" if os.path.isdir("/dev/shm") else "/var/tmp"
     d = os.path.join(root, "verif-ast-%s-%d" % (tag, os.getpid()))
@@ -185,6 +185,8 @@ def one(m, scale, amap):
                    VERIF_QUICK_LIMIT="600")
         props = amap.get(m["file"]) or ["C04", "C01"]
         props = sorted(set(props), key=CHEAP_FIRST.index)
+        if override:
+            props = [p_ for p_ in override if p_ in props] or props
         for prop in props:
             t0 = time.time()
             p = subprocess.run([os.path.join(VERIF, "check"), prop, "--tier", "quick"], cwd=VERIF, env=env,
@@ -211,6 +213,8 @@ def main():
     ap.add_argument("--only", default="")
     ap.add_argument("--list", action="store_true")
     ap.add_argument("--retry-survivors", action="store_true")
+    ap.add_argument("--battery", default="")
+    ap.add_argument("--skip", default="")
     args = ap.parse_args()
     ms = enumerate_mutants(args.per_function)
     if args.only:
@@ -228,6 +232,8 @@ def main():
         old = {r["id"]: r for r in json.load(open(path))}
     if args.retry_survivors:
         ms = [m for m in ms if old.get(m["id"], {}).get("status") in ("survived", "timeout")]
+        if args.skip:
+            ms = [m for m in ms if not re.search(args.skip, m["id"] + " " + m["func"])]
     else:
         ms = [m for m in ms if m["id"] not in old or args.only]
     amap = anchors()
@@ -237,7 +243,8 @@ def main():
     def save():
         json.dump(sorted(old.values(), key=lambda r: r["id"]), open(path, "w"), indent=1, sort_keys=True)
     with concurrent.futures.ThreadPoolExecutor(args.jobs) as ex:
-        for r in ex.map(lambda m: one(m, args.scale, amap), ms):
+        override = [x for x in args.battery.split(",") if x]
+        for r in ex.map(lambda m: one(m, args.scale, amap, override), ms):
             old[r["id"]] = r
             n += 1
             print("%-10s %s %s: %r -> %r  %s" % (r["status"], r["id"], r["func"], r["was"], r["rep"],
